@@ -318,6 +318,11 @@ def check(item, tier):
                                 first = [mdpr, mdp0]
                             else:
                                 first = [mdp0]
+                            if spec.gamma == 1:
+                                # an undiscounted problem written with the integer 1 as its discount leads the batch
+                                lead = build.SpecMDP(spec, slabel, alabel, explicit)
+                                lead.discount_rate = 1
+                                first = [lead] + first
                             b = PolicyIteration(max_iterations=500, undefined_value=undef).batch_plan_on(first + [mdp2, mdp, mdp2])[len(first):]
                             r.count('transitions')
                             single2 = PolicyIteration(max_iterations=500, undefined_value=undef).plan_on(mdp2)
